@@ -10,7 +10,6 @@ def str (s : Str) : Json := Json.str (String.ofList s)
 
 def errName : Err → String
   | .valueError => "ValueError"
-  | .typeError => "TypeError"
   | .indexError => "IndexError"
 
 def exc (e : Err) : Json := Json.mkObj [("exc", Json.str (errName e))]
@@ -46,6 +45,9 @@ def collectH : Handler := mapStrs "srcs" fun s =>
   match collectHints s with
   | .ok (a, d) => Json.mkObj [("addition", schedJson a), ("deletion", schedJson d)]
   | .error e => exc e
+
+def normLineH : Handler := mapStrs "lines" fun s => str (normLine s)
+def trimEndsH : Handler := mapStrs "srcs" fun s => str (trimEnds s)
 
 def removeHintsH : Handler := mapStrs "srcs" fun s => str (removeHints s)
 
@@ -121,8 +123,8 @@ def specDecorate : Handler := fun j => do
 /-- `c12.spec_malformed`: for each source, whether the hint tokens of its centrifugated text are
 malformed (`malformedB`) and tie-free (`tieFreeB`). -/
 def specMalformed : Handler := mapStrs "srcs" fun s =>
-  match centrifugate s with
-  | .ok c => Json.mkObj [("malformed", Json.bool (malformedB (hintToks c))), ("tiefree", Json.bool (tieFreeB (hintToks c)))]
+  match centrifugate (prepare s) with
+  | .ok c => Json.mkObj [("malformed", Json.bool (malformedB (hintToks c)))]
   | .error e => exc e
 
 /-! ### Parser glue -/
@@ -197,7 +199,7 @@ def errorSpanH : Handler := mapStrs "srcs" fun s =>
 def handlers : List (String × Handler) :=
   [("c12.get_program", getProgramH), ("c12.centrifugate", centrifugateH), ("c12.collect", collectH),
    ("c12.remove_hints", removeHintsH), ("c12.match_label", matchLabelH), ("c12.isolated", isolatedH),
-   ("c12.hint_tokens", hintTokensH), ("c12.spec_decorate", specDecorate), ("c12.spec_malformed", specMalformed),
+   ("c12.hint_tokens", hintTokensH), ("c12.norm_line", normLineH), ("c12.trim_ends", trimEndsH), ("c12.spec_decorate", specDecorate), ("c12.spec_malformed", specMalformed),
    ("c12.glue", glueH), ("c12.spec_counts", specCounts), ("c12.get_bindings", getBindingsH),
    ("c12.error_span", errorSpanH)]
 
